@@ -13,7 +13,7 @@ from vf.props import c07
 ID = "C17"
 LEVEL = "fault_enumeration"
 TECHNIQUE = "Hypothesis-generated (metafile, edit request) pairs; for each, the harness records every filesystem operation of the edit and re-runs it once per (operation, fault kind) with a crash or an OS error injected there, then strict-decodes the bytes at the metafile path ; hard-linked / symlinked metafile paths, os.write short writes, directory that refuses new entries (no staging file possible); thorough tier adds a coverage-guided (atheris/libFuzzer) stage"
-RULE = ("Cases: metafile (tool-made or reference-encoded, as C07) x one edit request (library or CLI; plus un-encodable values: float, "
+RULE = ("Cases: metafile (tool-made or reference-encoded, as C07; stored as m.torrent or under a name that looks like a staging/backup file: m.torrent.tmp, meta.tmp, m.torrent~, .m.torrent.swp, m.torrent.part ...) x one edit request (library or CLI; plus un-encodable values: float, "
         "None inside a list, lone surrogate). For each case a dry run records the trace of filesystem operations (open for write, "
         "each write, remove/rename/replace/truncate/fsync/mkdir/chmod ...) and then EVERY (operation index, fault kind) is executed on "
         "a fresh copy: crash-before, crash-after, crash after a prefix of a write (1, half, len-1 bytes), EACCES/EIO/ENOSPC (ENOSPC "
